@@ -143,7 +143,7 @@ P("C01", ["LC.Props.C01", "LC.Props.C01Range"], [MATCH, v2run("TestVerifC01")],
   ["DiffSpec.equalInputs (go-diff returns one Equal segment for identical texts)", FLOAT,
    "NoDominator: no other corpus document approximately spans several planted copies — FALSE for Apache-2.0 a.txt + header vs pristine.txt at threshold 0.75: known finding C01/approximate-superset-dominates-exact, classified by the harness and anchored by the model (needs_corr)"], regen=ALLGEN)
 
-P("C02", ["LC.Props.C02", "LC.Props.C02Words", "LC.Props.C02Bounds"], [MATCH],
+P("C02", ["LC.Props.C02", "LC.Props.C02Words", "LC.Props.C02Bounds", "LC.Props.C02Runes"], [MATCH],
   "real Match on exact / edited (word deletions, substitutions, insertions at 2-30%) / truncated / multi-license inputs, "
   "scenario files and malformed text over the full embedded corpus; oracle: independent two-row DP Levenshtein over the "
   "white-box token ids, Confidence <= 1 - L/|K|, lines = lines of first/last word. distinct = distinct input bytes; "
